@@ -170,7 +170,13 @@ pub fn check(c: &Case) -> CheckResult {
             match res3 {
                 Ok(s) => {
                     if let Some(d) = crash::ref_diff(&want, &s) {
-                        fails.push(Fail::new(format!("C04:state-differs-after-crash-during-recovery-level-{}", lvl + 1), format!("recovery after a crash inside recovery shows a different state: {d}")));
+                        // the same file was already opened (and judged) by check_prefixes at the
+                        // previous level; the same signatures apply to this recorded open of it
+                        let dup = s.frames.len() > want.frames.len()
+                            && s.frames.iter().zip(want.frames.iter()).all(|(x, y)| (x.0, &x.2, &x.3) == (y.0, &y.2, &y.3))
+                            && s.frames[want.frames.len()..].iter().all(|x| want.frames.iter().any(|y| x.2 == y.2));
+                        let key = if dup { "C04:log-records-applied-twice-after-crash-during-recovery".to_string() } else { format!("C04:state-differs-after-crash-during-recovery-level-{}", lvl + 1) };
+                        fails.push(Fail::new(key, format!("recovery after a crash inside recovery shows a different state: {d}")));
                     }
                 }
                 Err(_) => {
